@@ -5,12 +5,12 @@ from __future__ import annotations
 import copy
 import time
 
-from simkit.core import sig_key
+from simkit.core import replay_isolated, sig_key
 
 
 def _reproduces(machine, case: dict, target: str, known) -> bool:  # noqa: ANN001
     try:
-        res = machine.replay(case, known)
+        res = replay_isolated(machine, case, known)
     except Exception:  # noqa: BLE001  (a candidate that breaks the harness is rejected)
         return False
     return any(sig_key(v["signature"]) == target for v in res.violations)
